@@ -143,8 +143,8 @@ def gen_cache(rng, g, ghosts, n):
             if rng.random() < 0.5:
                 missing.add(gh)
         refs = set(itertools.chain.from_iterable(pm.values()))
-        if NULL in refs and NULL not in pm and rng.random() < 0.25:
-            missing.add(NULL)       # the documented pruned-NULL case
+        if NULL not in pm and rng.random() < (0.25 if NULL in refs else 0.1):
+            missing.add(NULL)       # the documented pruned-NULL case (also unreferenced)
         frontier = sorted(refs - set(pm) - missing)
         r = rng.random()
         if r < 0.5 and frontier:
@@ -464,6 +464,7 @@ def end_to_end(ctx, nrepos, n):
                     gr = rrepo.get_graph()
                     del obs[:]
                     walked = {}
+                    failed = None
                     for _ in range(2):      # the cache persists across searches under one lock
                         tips = rng.sample(nodes + ghosts, rng.randint(1, min(3, len(nodes))))
                         searcher = gr._make_breadth_first_searcher(tips)
@@ -475,7 +476,17 @@ def end_to_end(ctx, nrepos, n):
                                     searcher.stop_searching_any(set(rng.sample(sorted(lvl), 1)))
                         except StopIteration:
                             pass
+                        except Exception as e:   # the RPC failed: the oracle reports the recipe
+                            failed = e
+                            break
                     _e2e_oracle(ctx, g, ghosts, tips, depth, obs, walked)
+                    if failed is not None:
+                        last = [o for o in obs if o[0] == "client"][-1:]
+                        pm, missing, keys = (last[0][1], last[0][2], last[0][3]) if last else ({}, set(), tips)
+                        ctx.violation(jcase("e2e", g, pm, missing, keys or [], depth),
+                                      "end-to-end: graph walk through RemoteRepository failed: %r" % (failed,))
+                if failed is not None:
+                    break
             rrepo.controldir.root_transport.disconnect()
     finally:
         srv.stop_background_thread()
